@@ -8,7 +8,11 @@ from common import *
 
 def plan(t):
     q = t == 'quick'
-    return dict(comp_lens=(1, 2, 3) if q else (1, 2, 3, 4), pair_lens=[(1, 1), (1, 2), (2, 1)] if q else [(1, 1), (1, 2), (2, 1), (2, 2), (1, 3), (3, 1)])
+    # full printable alphabet for short strings; longer strings over small alphabets built around the reserved characters
+    # (the 23/22-step replace chains fold away for patterns whose bytes are not in the alphabet)
+    return dict(comp_lens=(1, 2), pair_lens=[(1, 1)] if q else [(1, 1), (1, 2), (2, 1)],
+                small=[('%256a', 3), ('&=%3D2', 3), ('+ %2B0', 3)] if q else [('%256a', 3), ('%256a', 4), ('%256a', 5), ('&=%3D26', 3), ('&=%3D26', 4), ('+ %2B0', 3), ('+ %2B0', 4), ('?#/%3F2', 3), ('?#/%3F2', 4)],
+                small_pairs=[('%26a=', (3, 1))] if q else [('%26a=', (3, 1)), ('%26a=', (1, 3)), ('%26a=&', (2, 2)), ('+ %2B', (2, 2))])
 
 
 def case(prog, params):
@@ -17,7 +21,7 @@ def case(prog, params):
     res = {'violations': [], 'inconclusive': [], 'samples': [], 'kinds': {}, 'compared': 0}
     ob = params['ob']
     if ob == 'component':
-        s = SymStr.fresh('s', params['n'], cons, exact_len=params['n'], alphabet=printable)
+        s = SymStr.fresh('s', params['n'], cons, exact_len=params['n'], alphabet=([ord(ch) for ch in params['alphabet']] if params.get('alphabet') else printable))
         ex.str_cap = 3 * params['n'] + 1      # an n-byte component encodes to at most 3n bytes; longer results are a terminal 'bound:strcap'
         st = State(); st.pc = list(cons)
         outs = ex.run_fn('encode_uri_component', [s], st)
@@ -40,7 +44,8 @@ def case(prog, params):
     else:
         kl, vl = params['lens']
         ex.str_cap = 3 * (kl + vl) + 2
-        k = SymStr.fresh('k', kl, cons, exact_len=kl, alphabet=printable); v = SymStr.fresh('v', vl, cons, exact_len=vl, alphabet=printable)
+        al = [ord(ch) for ch in params['alphabet']] if params.get('alphabet') else printable
+        k = SymStr.fresh('k', kl, cons, exact_len=kl, alphabet=al); v = SymStr.fresh('v', vl, cons, exact_len=vl, alphabet=al)
         hm = Opaque('HashMap', ((k, v),))
         st = State(); st.pc = list(cons)
         outs = ex.run_fn('build_url_search_params', [hm], st)
@@ -99,12 +104,15 @@ def classify(s):
 def main():
     chk = H.Check('C17', 'form and query decoding returns the submitted fields')
     prog = chk.load()
-    P = plan(chk.tier); chk.bounds = dict(P, alphabet='printable ASCII 0x20-0x7e (includes & = % + ? # / and blank)')
+    P = plan(chk.tier); chk.bounds = dict(P, alphabet='printable ASCII 0x20-0x7e for the short cases; the listed small alphabets for the longer ones')
     chk.assumptions = ['non-empty names and values of the stated concrete lengths, printable ASCII; one field per map (HashMap iteration order is irrelevant then)',
                        'non-ASCII text is outside the claim; the echo endpoints of the server are covered by C04/C05 sweeps, not here']
     cases = [dict(ob='component', n=n) for n in P['comp_lens']]
     for lens in P['pair_lens']:
         cases.append(dict(ob='query', lens=lens)); cases.append(dict(ob='form', lens=lens))
+    for al, n in P['small']: cases.append(dict(ob='component', n=n, alphabet=al))
+    for al, lens in P['small_pairs']:
+        cases.append(dict(ob='query', lens=lens, alphabet=al)); cases.append(dict(ob='form', lens=lens, alphabet=al))
     results = chk.run_cases(case, cases, label='encode/build -> decode/parse', case_timeout=400 if chk.tier == 'quick' else 2400)
     chk.extra['results_compared'] = sum(r.get('compared', 0) for r in results)
 
